@@ -948,6 +948,67 @@ pub fn run_schema(req: &str, kind: &str, ty: &str, content: &J, schema_head: &st
     Outcome { imp, t3 }
 }
 
+fn field_paths(sp: &S, path: &mut Vec<PE>, out: &mut Vec<(Vec<PE>, String)>) {
+    match sp {
+        S::NullOr(x) => field_paths(x, path, out),
+        S::Obj(fs) => {
+            for f in fs {
+                out.push((path.clone(), f.name.to_owned()));
+                path.push(PE::Field(f.name.to_owned()));
+                field_paths(&f.s, path, out);
+                path.pop();
+            }
+        }
+        S::Arr(x) => {
+            path.push(PE::Elem);
+            field_paths(x, path, out);
+            path.pop();
+        }
+        S::Map(_, v) => {
+            path.push(PE::Val);
+            field_paths(v, path, out);
+            path.pop();
+        }
+        _ => {}
+    }
+}
+
+/// The facts of today's code frozen in request lines: per modelled type the minimal and two maximal
+/// spec-shaped contents, and per field (at every depth) the minimal content with the field present
+/// and with the field left out.
+pub fn pin_lines(ex: &Extraction) -> Vec<String> {
+    let mut v: Vec<String> = Vec::new();
+    for t in &ex.modelled {
+        let mut push = |j: &J| {
+            let l = format!("c18.schema {} {} {} {}", t.kind, stok(&t.ty), jt::toks(j), t.toks);
+            if !v.contains(&l) {
+                v.push(l);
+            }
+        };
+        for (n, mode) in [Mode::Min, Mode::Max, Mode::Max].iter().enumerate() {
+            let mut rng = Rng::new(1800 + n as u64);
+            push(&schema::gen(&mut rng, &t.spec, *mode));
+        }
+        let p = Prober { kind: t.kind, ty: t.ty.clone(), spec: t.spec.clone(), notes: vec![] };
+        let mut fps = Vec::new();
+        field_paths(&t.spec, &mut Vec::new(), &mut fps);
+        for (q, name) in fps {
+            let mut full = q.clone();
+            full.push(PE::Field(name.clone()));
+            let base = p.base(&full);
+            if matches!(base, J::Obj(_)) {
+                push(&base);
+                let mut without = base.clone();
+                if let Some(o) = nav_mut(&mut without, &q) {
+                    o.remove(&name);
+                }
+                push(&without);
+            }
+        }
+    }
+    v
+}
+
 /// Requests that pin the machine-checked witnesses of `Props/C18Schema.lean` on the real code.
 pub fn witness_reqs(ex: &Extraction) -> Vec<String> {
     let mut v = Vec::new();
